@@ -57,6 +57,15 @@ type c08Kill struct {
 	At  time.Duration `json:"at_ns"`
 }
 
+// c08Crash stands for a process that calls Lock and dies between its O_EXCL create and the end of its
+// metadata write (a window of microseconds that no SIGKILL can be aimed at): at the planned instant the
+// harness itself creates the lock file exclusively and leaves it empty / with cut-off JSON / with garbage /
+// as a directory. Nobody maintains that file.
+type c08Crash struct {
+	At   time.Duration `json:"at_ns"`
+	Kind string        `json:"kind"` // empty truncated garbage dir
+}
+
 // c08Signal suspends (SIGSTOP) or resumes (SIGCONT) a child process.
 type c08Signal struct {
 	Pid  int           `json:"pid"`
@@ -71,6 +80,7 @@ type c08Scenario struct {
 	Threads []c08Thread   `json:"threads"`
 	Kills   []c08Kill     `json:"kills,omitempty"`
 	Signals []c08Signal   `json:"signals,omitempty"`
+	Crashes []c08Crash    `json:"crashes,omitempty"`
 	Horizon time.Duration `json:"horizon_ns"`
 	// Gap > 0: the child processes run under `strace -e inject=ftruncate:delay_exit=Gap`, i.e. on
 	// storage so slow that a heartbeat leaves the lock file empty for Gap between truncate and write
@@ -155,6 +165,7 @@ type c08Result struct {
 	Obs      map[int]*c08ThreadObs
 	KillAt   map[int]int64 // pid -> measured
 	SigAt    []int64       // measured instants of Sc.Signals (0 = not delivered)
+	CrashAt  []int64       // measured instants of Sc.Crashes (0 = not yet)
 	Traces   map[int][]int // pid -> system calls on the lock file (codes of c08ParseTrace)
 	TraceTxt map[int][]string
 	PreAbs   [2]int64      // created, updated relative to base (ns), for meta files
@@ -373,6 +384,39 @@ func c08Run(tmproot string, sc c08Scenario) (*c08Result, error) {
 			}
 		}()
 	}
+	res.CrashAt = make([]int64, len(sc.Crashes))
+	for i, cr := range sc.Crashes {
+		i, cr := i, cr
+		wg.Add(1)
+		go func() {
+			defer wg.Done()
+			select {
+			case <-time.After(time.Until(base.Add(cr.At))):
+			case <-endCtx.Done():
+				return
+			}
+			fn := certmagic.VerifLockFilename(fs, sc.Threads[0].Name)
+			os.MkdirAll(filepath.Dir(fn), 0o700)
+			t := time.Now()
+			if cr.Kind == "dir" {
+				os.Mkdir(fn, 0o755)
+			} else if f, err := os.OpenFile(fn, os.O_CREATE|os.O_WRONLY|os.O_EXCL, 0o644); err == nil {
+				switch cr.Kind {
+				case "truncated":
+					f.WriteString(`{"created":"2026-10-0`)
+				case "garbage":
+					f.WriteString("\x00\x00 not json\n")
+				}
+				f.Close()
+			}
+			mu.Lock()
+			res.CrashAt[i] = rel(t)
+			if res.CrashAt[i] == 0 {
+				res.CrashAt[i] = 1
+			}
+			mu.Unlock()
+		}()
+	}
 	res.SigAt = make([]int64, len(sc.Signals))
 	for i, sg := range sc.Signals {
 		i, sg := i, sg
@@ -409,6 +453,11 @@ func c08Run(tmproot string, sc c08Scenario) (*c08Result, error) {
 		mu.Lock()
 		done := len(res.KillAt) == len(sc.Kills)
 		for _, t := range res.SigAt {
+			if t == 0 {
+				done = false
+			}
+		}
+		for _, t := range res.CrashAt {
 			if t == 0 {
 				done = false
 			}
@@ -676,6 +725,17 @@ func c08Emit(w *emit.Writer, res *c08Result) {
 				evs = append(evs, ev{t, k, sg.Pid, 0})
 			}
 		}
+		if gi == 0 { // the crashed creators use the name of the first thread
+			for i, cr := range sc.Crashes {
+				if t := res.CrashAt[i]; t != 0 && t <= hz {
+					g := 0
+					if cr.Kind != "empty" {
+						g = 1
+					}
+					evs = append(evs, ev{t, 6, 90 + i, 2*(90+i) + g})
+				}
+			}
+		}
 		sort.SliceStable(evs, func(i, j int) bool { return evs[i].T < evs[j].T })
 		e := &emit.Enc{}
 		e.Int(0) // case kind 0: one lock file of a scenario
@@ -899,6 +959,22 @@ func c08Scenarios(tier string, r *rand.Rand) []c08Scenario {
 			Threads: []c08Thread{{Tid: 0, Name: n, StartAt: 0, HoldFor: c08ms(200)}, {Tid: 1, Pid: 1, Name: n, StartAt: c08ms(600), HoldFor: -1},
 				{Tid: 2, Name: n, StartAt: c08ms(1150), HoldFor: c08ms(200), CancelAt: long}},
 			Kills: []c08Kill{{1, c08ms(1100)}}, Horizon: c08ms(26500)},
+		// the zombie heartbeat again, with the second holder dying DURING its creation: A locks, unlocks and
+		// stays alive (its heartbeat goroutine lingers until 5 s); a process takes the free lock at 0.6 s and
+		// dies leaving the lock file empty / cut off / garbage / a directory; A's old heartbeat must not adopt
+		// that file; the contender gets the lock when the file has not been modified for 10 s
+		{Name: "zombie-heartbeat-empty-file", Class: "zombie-heartbeat-dead-creator", Crashes: []c08Crash{{c08ms(600), "empty"}},
+			Threads: []c08Thread{{Tid: 0, Name: n, StartAt: 0, HoldFor: c08ms(200)}, {Tid: 2, Pid: 1, Name: n, StartAt: c08ms(1150), HoldFor: c08ms(200), CancelAt: long}},
+			Horizon: c08ms(17000)},
+		{Name: "zombie-heartbeat-truncated-file", Class: "zombie-heartbeat-dead-creator", Crashes: []c08Crash{{c08ms(600), "truncated"}},
+			Threads: []c08Thread{{Tid: 0, Name: n, StartAt: 0, HoldFor: c08ms(200)}, {Tid: 2, Name: n, StartAt: c08ms(1150), HoldFor: c08ms(200), CancelAt: long}},
+			Horizon: c08ms(17000)},
+		{Name: "zombie-heartbeat-garbage-file", Class: "zombie-heartbeat-dead-creator", Crashes: []c08Crash{{c08ms(600), "garbage"}},
+			Threads: []c08Thread{{Tid: 0, Name: n, StartAt: 0, HoldFor: c08ms(200)}, {Tid: 2, Name: n, StartAt: c08ms(1150), HoldFor: c08ms(200), CancelAt: long}},
+			Horizon: c08ms(17000)},
+		{Name: "zombie-heartbeat-directory", Class: "zombie-heartbeat-dead-creator", Crashes: []c08Crash{{c08ms(600), "dir"}},
+			Threads: []c08Thread{{Tid: 0, Name: n, StartAt: 0, HoldFor: c08ms(200)}, {Tid: 2, Name: n, StartAt: c08ms(1150), HoldFor: c08ms(200), CancelAt: long}},
+			Horizon: c08ms(17000)},
 		{Name: "kill-holder-after-heartbeat", Class: "kill-holder",
 			Threads: []c08Thread{{Tid: 0, Pid: 1, Name: n, StartAt: c08ms(200), HoldFor: -1}, {Tid: 1, Name: n, StartAt: c08ms(750), HoldFor: c08ms(200), CancelAt: long}},
 			Kills:   []c08Kill{{1, c08ms(6500)}}, Horizon: c08ms(24000)},
@@ -954,6 +1030,15 @@ func c08Scenarios(tier string, r *rand.Rand) []c08Scenario {
 		{Name: "trace-stale-takeover", Class: "traced", Trace: true, Pre: c08PreFile{Kind: "meta", CreatedAge: c08ms(90000), UpdatedAge: c08ms(30000)},
 			Threads: []c08Thread{{Tid: 0, Pid: 1, Name: n, StartAt: c08ms(200), HoldFor: c08ms(300), CancelAt: long}},
 			Horizon: c08ms(3000)},
+		// the context passed to Lock bounds the ACQUISITION only: it ends (deadline, `defer cancel()`) right
+		// after Lock returned, the hold goes on for more than 2 x interval with a contender waiting - the
+		// lock must stay the holder's (a heartbeat tied to that context would stop and the waiter steal it)
+		{Name: "holder-context-ends-after-acquisition", Class: "holder-ctx",
+			Threads: []c08Thread{{Tid: 0, Name: n, StartAt: 0, HoldFor: c08ms(12600), CancelAt: c08ms(1000)}, {Tid: 1, Pid: 1, Name: n, StartAt: c08ms(500), HoldFor: c08ms(200), CancelAt: long}},
+			Horizon: c08ms(15000)},
+		{Name: "holder-process-context-ends-after-acquisition", Class: "holder-ctx",
+			Threads: []c08Thread{{Tid: 0, Pid: 1, Name: n, StartAt: c08ms(200), HoldFor: c08ms(12600), CancelAt: c08ms(700)}, {Tid: 1, Name: n, StartAt: c08ms(500), HoldFor: c08ms(200), CancelAt: long}},
+			Horizon: c08ms(15000)},
 		{Name: "three-processes", Class: "multi-process",
 			Threads: []c08Thread{{Tid: 0, Pid: 1, Name: n, StartAt: c08ms(150), HoldFor: c08ms(600)}, {Tid: 1, Pid: 2, Name: n, StartAt: c08ms(350), HoldFor: c08ms(600), CancelAt: long},
 				{Tid: 2, Pid: 3, Name: n, StartAt: c08ms(550), HoldFor: c08ms(600), CancelAt: long}},
